@@ -38,6 +38,10 @@ ASSUMPTIONS = [
     'ceil(width/2) samples per axis (but more than one sample) must raise ValueError, everything else is the reflected-window '
     'median; 2-D images with a single row or column shorter than the padding (numpy broadcasts them) are not generated',
     'skymask: a mask pixel is flagged when its stored integer value (two\'s complement) shares a bit with a flag value',
+    'caller-owned ndarray arguments must be bit-identical after every call (checked for every call, violation otherwise); a result '
+    'that shares memory with an UNMODIFIED argument (djs_maskinterp1 / aesthetics / djs_median return their input when there is '
+    'nothing to do) is counted in coverage.argument_checks and not reported; histories of calls on the same arrays are compared '
+    'step by step with the model evaluated on the original values; integer (non-bool) inmask for djs_reject is not generated',
     'floating point: values compared at 1e-12 relative; thresholds are either hit exactly (exact dyadic arithmetic) or '
     'missed by >= 1e-6 relative',
 ]
@@ -448,6 +452,153 @@ def sky_terms(c, r, flags):
     return out
 
 
+# ---------------------------------------------------------------- input classes, histories
+
+def pow2(k):
+    return k > 0 and (k & (k - 1)) == 0
+
+
+def decorate(rng, c):
+    """input classes applied uniformly to every family: read-only arguments, float32 data (only where float32
+    arithmetic stays exact, so that the 1e-12 comparison remains meaningful), further mask dtypes"""
+    if rng.random() < 0.2:
+        c['readonly'] = True
+    f32 = rng.random() < 0.15
+    f = c['f']
+    if f == 'reject' and f32 and c['_mode'] != 'invvar':
+        c['dtypes'] = {'data': 'f4', 'model': 'f4', 'sigma': 'f4'}
+    elif f == 'interp':
+        if rng.random() < 0.15:
+            c['maskdtype'] = 'u8'
+        if f32 and len(c['shape']) == 1:
+            c['dtypes'] = {'y': 'f4', 'xval': 'f4'}
+    elif f == 'aesth' and f32:
+        if c['method'] == 'mean' and not pow2(sum(1 for v in c['invvar'] if v > 0)):
+            c['method'] = 'traditional'          # a float32 mean is exact only over 2^k pixels
+        c['dtypes'] = {'flux': 'f4', 'invvar': 'f4'}
+    elif f == 'median' and f32:
+        c['dtypes'] = {'xs': 'f4'}
+    elif f == 'sky' and f32:
+        c['dtypes'] = {'invvar': 'f4'}
+    return c
+
+
+def shared(values, shape, dtype, rng):
+    return {'v': values, 'shape': shape, 'dtype': dtype, 'readonly': rng.random() < 0.15}
+
+
+def gen_history(rng, ctx, k, bits):
+    """several calls in ONE process on the SAME array objects.  -> (arrays, [ref-form step], [resolved step]);
+    every resolved step is an ordinary call carrying the ORIGINAL values, so the model's answer for it does not
+    depend on what earlier steps did."""
+    fam = rng.choice(['aesth', 'aesth', 'reject', 'reject', 'interp', 'sky', 'median'])
+    arrays, refs, steps = {}, [], []
+    if fam == 'aesth':
+        n = rng.randint(2, 12)
+        f32 = rng.random() < 0.3
+        dt = 'f4' if f32 else 'd'
+        flux = [C.dyadic(rng, -16, 16, 6) for _ in range(n)]
+        ivs = {}
+        for nm in ('ivA', 'ivB'):
+            iv = [0.0 if rng.random() < rng.choice([0.3, 0.6]) else C.dyadic(rng, 0.125, 4, 3) for _ in range(n)]
+            if not any(iv):
+                iv[rng.randrange(n)] = 1.5
+            ivs[nm] = iv
+            arrays[nm] = shared(iv, [n], dt, rng)
+        arrays['flux'] = shared(flux, [n], dt, rng)
+        meths = [rng.choice(['traditional', 'noconst', 'mean', 'mean', 'nothing']) for _ in range(rng.randint(3, 5))]
+        if 'mean' not in meths[:-1]:
+            meths[0] = 'mean'
+        for m in meths:
+            nm = rng.choice(['ivA', 'ivB'])
+            if m == 'mean' and f32 and not pow2(sum(1 for v in ivs[nm] if v > 0)):
+                m = 'nothing'
+            refs.append({'f': 'aesth', 'method': m, 'flux': {'ref': 'flux'}, 'invvar': {'ref': nm}})
+            steps.append({'f': 'aesth', 'method': m, 'flux': flux, 'invvar': ivs[nm]})
+    elif fam == 'reject':
+        while True:
+            c = gen_reject(rng, ctx, k)
+            if len(c['shape']) == 1:
+                break
+        n = c['shape'][0]
+        arrays['data'] = shared(c['data'], [n], 'd', rng)
+        arrays['model'] = shared(c['model'], [n], 'd', rng)
+        scale_key = 'sigma' if isinstance(c.get('sigma'), list) else ('invvar' if c.get('invvar') is not None else None)
+        if scale_key:
+            arrays[scale_key] = shared(c[scale_key], [n], 'd', rng)
+        if c['inmask'] is not None:
+            arrays['inmask'] = shared(c['inmask'], [n], 'bool', rng)
+        if c['outmask'] is not None:
+            arrays['outmask'] = shared(c['outmask'], [n], 'bool', rng)
+        for j in range(rng.randint(2, 4)):          # iterations re-using the previous output mask
+            st = dict(c)
+            st['sticky'] = rng.random() < 0.5
+            st['grow'] = rng.choice([0, 0, 1, 2])
+            for lim in ('lower', 'upper', 'maxdev'):
+                if c[lim] is not None and rng.random() < 0.3 and c['_mode'] != 'maxdev_only':
+                    st[lim] = None
+            rf = public(st)
+            for key in ('data', 'model', 'inmask') + ((scale_key,) if scale_key else ()):
+                if key in arrays:
+                    rf[key] = {'ref': key}
+            if j == 0:
+                rf['outmask'] = {'ref': 'outmask'} if 'outmask' in arrays else None
+            else:
+                rf['outmask'] = {'prev': j - 1}
+                st['outmask'] = ('prev', j - 1)
+            refs.append(rf)
+            steps.append(st)
+    elif fam == 'interp':
+        while True:
+            c = gen_interp(rng, ctx, k)
+            if len(c['shape']) == 1:
+                break
+        n = c['shape'][0]
+        masks = {'mask': c['mask'], 'mask2': gen_mask_line(rng, n)}
+        arrays['y'] = shared(c['y'], [n], 'd', rng)
+        for nm, m in masks.items():
+            arrays[nm] = shared(m, [n], c['maskdtype'], rng)
+        if c['xval'] is not None:
+            arrays['xval'] = shared(c['xval'], [n], 'd', rng)
+        for j in range(rng.randint(2, 4)):
+            nm = rng.choice(['mask', 'mask2'])
+            usex = c['xval'] is not None and rng.random() < 0.6
+            st = {'f': 'interp', 'shape': [n], 'y': c['y'], 'mask': masks[nm], 'xval': c['xval'] if usex else None,
+                  'const': rng.random() < 0.5, 'maskdtype': c['maskdtype'], '_lines': [list(range(n))], 'axis': 0}
+            if rng.random() < 0.5:
+                st['direct1'] = True
+            rf = public(st)
+            rf.update({'y': {'ref': 'y'}, 'mask': {'ref': nm}, 'xval': {'ref': 'xval'} if usex else None})
+            refs.append(rf)
+            steps.append(st)
+    elif fam == 'sky':
+        c = gen_sky(rng, ctx, k, bits)
+        if c['mask'] is None:
+            c['mask'] = [0] * (c['shape'][0] * c['shape'][1])
+        arrays['invvar'] = shared(c['invvar'], c['shape'], 'd', rng)
+        arrays['mask'] = shared(c['mask'], c['shape'], c['dtype'], rng)
+        for j in range(rng.randint(2, 3)):
+            st = dict(c)
+            st['ngrow'] = rng.choice([0, 1, 2, 3, None])
+            rf = public(st)
+            rf.update({'invvar': {'ref': 'invvar'}, 'mask': {'ref': 'mask'}})
+            refs.append(rf)
+            steps.append(st)
+    else:
+        c = gen_median(rng, ctx, k)
+        arrays['xs'] = shared(c['xs'], c['shape'], 'd', rng)
+        for j in range(rng.randint(2, 3)):
+            st = dict(c)
+            ws = [w for w in (1, 3, 3, 5, c['width'])
+                  if len(c['shape']) == 1 or all(d >= (w + 1) // 2 or d >= 2 for d in c['shape'])]   # a single row/column shorter than the padding broadcasts: not modelled
+            st['width'] = rng.choice(ws)
+            rf = public(st)
+            rf['xs'] = {'ref': 'xs'}
+            refs.append(rf)
+            steps.append(st)
+    return arrays, refs, steps
+
+
 # ---------------------------------------------------------------- signatures
 
 def impl_class(r):
@@ -469,7 +620,8 @@ def signature(c, r, verdict):
     else:
         cls = 'signed' if DT[c['dtype']][1] else 'unsigned'
         f = 'skymask'
-    return 'C17:%s:%s:impl=%s:%s' % (f, cls, impl_class(r), what)
+    hist = ':after-other-calls-on-the-same-arrays' if c.get('_hist', (0, 0))[1] > 0 else ''
+    return 'C17:%s:%s:impl=%s:%s%s' % (f, cls, impl_class(r), what, hist)
 
 
 def public(c):
@@ -488,33 +640,68 @@ def correspond(ctx, proof_ok=True):
     rng = ctx.rng
     calls = []                                   # (bits index, call)
     for k in range(ctx.n(700, 12000)):
-        calls.append((0, gen_reject(rng, ctx, k)))
+        calls.append((0, decorate(rng, gen_reject(rng, ctx, k))))
     for k in range(ctx.n(600, 8000)):
-        calls.append((0, gen_interp(rng, ctx, k)))
+        calls.append((0, decorate(rng, gen_interp(rng, ctx, k))))
     for k in range(ctx.n(250, 4000)):
-        calls.append((0, gen_aesth(rng, ctx, k)))
+        calls.append((0, decorate(rng, gen_aesth(rng, ctx, k))))
     for k in range(ctx.n(300, 5000)):
-        calls.append((0, gen_median(rng, ctx, k)))
+        calls.append((0, decorate(rng, gen_median(rng, ctx, k))))
     for k in range(ctx.n(450, 8000)):
         bi = 0 if k % 2 == 0 else (1 if k % 4 == 1 else 2)
-        calls.append((bi, gen_sky(rng, ctx, k, BITSETS[bi])))
+        calls.append((bi, decorate(rng, gen_sky(rng, ctx, k, BITSETS[bi]))))
+    # histories: several calls in one process on the same array objects; every step is an ordinary entry of
+    # `calls` (with the ORIGINAL values) that is executed as part of its history
+    histories = []                               # {'arrays', 'steps' (ref form), 'members' (indices into calls)}
+    for k in range(ctx.n(300, 5000)):
+        arrays, refs, steps = gen_history(rng, ctx, k, BITSETS[0])
+        members = []
+        for j, st in enumerate(steps):
+            st['_hist'] = (len(histories), j)
+            members.append(len(calls))
+            calls.append((0, st))
+        histories.append({'arrays': arrays, 'steps': refs, 'members': members})
     # run the implementation: one process per (bit placement, slice)
     nb = 5
     payloads, where = [], []
     for bi in range(len(BITSETS)):
-        mine = [k for k, (b, _) in enumerate(calls) if b == bi]
+        mine = [k for k, (b, c_) in enumerate(calls) if b == bi and '_hist' not in c_]
         for s_ in range(nb):
             part = mine[s_::nb]
             if part:
                 payloads.append({'bits': list(BITSETS[bi]), 'calls': [public(calls[k][1]) for k in part]})
                 where.append(part)
+    for s_ in range(nb):
+        hs = histories[s_::nb]
+        if hs:
+            payloads.append({'bits': list(BITSETS[0]), 'calls': [{'f': 'history', 'arrays': h['arrays'], 'steps': h['steps']} for h in hs]})
+            where.append(('hist', hs))
     outs = C.run_impl_parallel('c17_impl.py', payloads)
     results = [None] * len(calls)
     flags_of = {}
     for part, o, pl in zip(where, outs, payloads):
         flags_of[tuple(pl['bits'])] = o['flags']
+        if isinstance(part, tuple):
+            for h, r in zip(part[1], o['results']):
+                for k, sr in zip(h['members'], r.get('steps', [])):
+                    results[k] = sr
+            continue
         for k, r in zip(part, o['results']):
             results[k] = r
+    for k in range(len(results)):
+        if results[k] is None:
+            results[k] = {'err': 'NotRun'}
+    # a djs_reject iteration takes the mask returned by the previous step of its history as its outmask
+    for h in histories:
+        for k in h['members']:
+            c_ = calls[k][1]
+            if isinstance(c_.get('outmask'), tuple):
+                pr = results[h['members'][c_['outmask'][1]]]
+                if 'ok' in pr:
+                    c_['outmask'] = pr['ok']['mask']
+                else:
+                    c_['outmask'] = None
+                    results[k] = {'err': 'NotRun'}
     ctx.coverage['pydl_file'] = outs[0]['pydl_file']
     ctx.coverage['numpy'] = outs[0]['numpy']
     ctx.coverage['flag_values'] = {str(k): v for k, v in flags_of.items()}
@@ -530,6 +717,8 @@ def correspond(ctx, proof_ok=True):
     terms = []                                   # (call index, sub index, term)
     for ci, ((bi, c), r) in enumerate(zip(calls, results)):
         f = c['f']
+        if r.get('err') == 'NotRun':
+            continue
         if f == 'reject':
             terms.append((ci, 0, reject_term(c, r)))
         elif f == 'interp':
@@ -557,7 +746,7 @@ def correspond(ctx, proof_ok=True):
     ctx.coverage.update({
         'evaluations': len(terms),
         'distinct_nontrivial': len(set(t for _, _, t in terms)),
-        'rule': 'one evaluation = one call of djs_reject / aesthetics / djs_median(reflect) / djs_maskinterp (1-D: the '
+        'rule': 'one evaluation = one call (alone, or as a step of a history of calls on the same array objects) of djs_reject / aesthetics / djs_median(reflect) / djs_maskinterp (1-D: the '
                 'vector; n-D: the whole array with the index lists of its lines), or one row of a skymask call, whose observed output is compared inside Coq with the '
                 'transliterated model M (bit 1) and with the specification S (bit 2); distinct = distinct Coq case terms',
         'calls_by_function_and_outcome': dist,
@@ -580,6 +769,37 @@ def correspond(ctx, proof_ok=True):
         'samples': [{'call': public(calls[ci][1]), 'impl': results[ci], 'coq_case': t[:400]}
                     for ci, j, t in [terms[0], terms[len(terms) // 3], terms[len(terms) // 2], terms[-1]]],
     })
+    # generic post-conditions of every call: caller-owned arguments bit-identical afterwards
+    hist_of = lambda c_: histories[c_['_hist'][0]] if '_hist' in c_ else None      # noqa: E731
+    seen_mut = set()
+    n_mut = 0
+    alias = {}
+    for ci, ((bi, c), r) in enumerate(zip(calls, results)):
+        for a_ in r.get('aliased') or []:
+            key = '%s:%s' % (c['f'], a_)
+            alias[key] = alias.get(key, 0) + 1
+        if r.get('mutated'):
+            n_mut += 1
+            sig = 'C17:%s:argument-modified:%s' % ('skymask' if c['f'] == 'sky' else c['f'], '+'.join(sorted(r['mutated'])))
+            if sig in seen_mut:
+                continue
+            seen_mut.add(sig)
+            h = hist_of(c)
+            rep = {'kind': 'failing-input', 'call': public(c), 'bits': list(BITSETS[bi]), 'impl_result': r,
+                   'modified_arguments': r['mutated'],
+                   'meaning': 'after the call the listed caller-owned ndarray arguments are no longer bit-identical to the copy '
+                              'taken before it: the routine wrote into its input, so any later use of the same array sees altered data'}
+            if h is not None:
+                rep['history'] = {'arrays': h['arrays'], 'steps': h['steps'], 'step': c['_hist'][1]}
+            ctx.violation(sig, '%s modified its argument(s) %s in place, e.g. %s' % (c['f'], r['mutated'], str(public(c))[:300]), rep, True)
+    ctx.coverage['argument_checks'] = {
+        'calls_checked': sum(1 for r in results if 'mutated' in r), 'calls_with_modified_argument': n_mut,
+        'result_shares_memory_with_argument': alias,
+        'read_only_arguments': sum(1 for _, c in calls if c.get('readonly')) + sum(1 for h in histories for a_ in h['arrays'].values() if a_['readonly']),
+        'float32_calls': sum(1 for _, c in calls if c.get('dtypes')) + sum(1 for h in histories if any(a_['dtype'] == 'f4' for a_ in h['arrays'].values())),
+        'histories': len(histories), 'history_steps': sum(len(h['members']) for h in histories),
+        'note': 'a result that shares memory with an UNMODIFIED argument (the routine returned its input because there was nothing to do) '
+                'is counted here and not reported; a modified argument is a violation'}
     # one violation per signature, smallest input first
     best = {}
     for ci, j, t, v in bad:
@@ -595,6 +815,10 @@ def correspond(ctx, proof_ok=True):
         bi, c = calls[ci]
         rep = {'call': public(c), 'bits': list(BITSETS[bi]), 'sub_index': j, 'impl_result': results[ci], 'coq_case': t,
                'verdict': v, 'cases_with_this_signature': count[sig],
+               'history': (None if '_hist' not in c else
+                           {'arrays': histories[c['_hist'][0]]['arrays'], 'steps': histories[c['_hist'][0]]['steps'], 'step': c['_hist'][1],
+                            'note': 'the call above is step `step` of this history: all steps run in one process on the same array '
+                                    'objects; `call` shows the ORIGINAL values the arrays held, which is what the expected answer is computed from'}),
                'meaning': 'verdict bit 2: the observed output contradicts the specification S of C17/Model.v (certified by the '
                           'theorems of C17/Props.v); bit 1: the transliterated model M differs from the observed output'}
         if v & 2:
@@ -613,7 +837,15 @@ def replay(ctx, rep):
     if not c:
         print('replay file has no call (kind=%s, item=%s)' % (rep.get('kind'), rep.get('item')))
         return 2
-    out = C.run_impl('c17_impl.py', {'bits': rep.get('bits', [27, 28]), 'calls': [c]})
+    h = rep.get('history')
+    if h:
+        out = C.run_impl('c17_impl.py', {'bits': rep.get('bits', [27, 28]), 'calls': [{'f': 'history', 'arrays': h['arrays'], 'steps': h['steps']}]})
+        steps = out['results'][0].get('steps', [])
+        print('history:', h['steps'])
+        out = {'results': [steps[h['step']] if h['step'] < len(steps) else None]}
+        print('step   :', h['step'])
+    else:
+        out = C.run_impl('c17_impl.py', {'bits': rep.get('bits', [27, 28]), 'calls': [c]})
     print('call   :', c)
     print('impl   :', out['results'][0])
     print('before :', rep.get('impl_result'))
